@@ -65,6 +65,63 @@ pub fn run(kind: &str, seed: u64, args: &BTreeMap<String, String>, out: &mut dyn
             }
             Ok(())
         }
+        // YAML streams. profile = mixed (full presentation space) | plain (no YAML-only features, 1 doc)
+        //   line: {"text_hex":..,"docs":[tagged..],"features":[..],"line_break":"lf|crlf|cr"}
+        // profile = c26: one tree rendered three ways
+        //   line: {"val":tagged,"json_hex":..,"block_hex":..,"flow_hex":..,"nodes":n}
+        // Only streams that pass the generator self-check (serde_yaml reads back the ground truth) are emitted.
+        "gen-yaml" => {
+            use crate::gen::yaml as gy;
+            let profile = args.get("profile").map(|s| s.as_str()).unwrap_or("mixed");
+            let mut emitted = 0usize;
+            let mut tries = 0usize;
+            while emitted < n && tries < n * 20 {
+                tries += 1;
+                match profile {
+                    "c26" => {
+                        let mut o = gy::YamlOpts::plain(gy::Collections::BlockOnly);
+                        o.max_docs = 1;
+                        o.max_depth = *r.pick(&[1usize, 2, 3, 4]);
+                        o.max_width = *r.pick(&[1usize, 2, 4, 6]);
+                        o.budget = *r.pick(&[4usize, 12, 30]);
+                        o.str_class = r.below(3) as u8;
+                        let tree = gy::gen_yaml_tree(&mut r, &o);
+                        let docs = vec![tree.clone()];
+                        let block = gy::render_docs(&mut r, &o, &docs);
+                        let mut of = gy::YamlOpts::flow_only_plain();
+                        of.max_docs = 1;
+                        let flow = gy::render_docs(&mut r, &of, &docs);
+                        if gy::self_check(&block).is_err() || gy::self_check(&flow).is_err() {
+                            continue;
+                        }
+                        let ro = gj::RenderOpts { ws: r.below(3) as u8, esc: r.below(2) as u8, align_to: None };
+                        let js = gj::render(&mut r, &ro, &tree);
+                        let line = json!({"val": tree.to_tagged(), "json_hex": hex(&js.bytes), "block_hex": hex(&block.bytes),
+                            "flow_hex": hex(&flow.bytes), "nodes": tree.node_count()});
+                        writeln!(out, "{line}").map_err(|e| e.to_string())?;
+                        emitted += 1;
+                    }
+                    _ => {
+                        let o = if profile == "plain" {
+                            let mut o = gy::YamlOpts::plain(*r.pick(&[gy::Collections::Mixed, gy::Collections::BlockOnly, gy::Collections::FlowOnly]));
+                            o.max_docs = 1;
+                            o
+                        } else {
+                            gy::YamlOpts::random(&mut r)
+                        };
+                        let st = gy::gen_stream(&mut r, &o);
+                        if gy::self_check(&st).is_err() {
+                            continue;
+                        }
+                        let line = json!({"text_hex": hex(&st.bytes), "docs": st.docs.iter().map(|d| d.to_tagged()).collect::<Vec<_>>(),
+                            "features": st.features, "line_break": st.line_break.name()});
+                        writeln!(out, "{line}").map_err(|e| e.to_string())?;
+                        emitted += 1;
+                    }
+                }
+            }
+            Ok(())
+        }
         _ => Err(format!("unknown generator {kind}")),
     }
 }
